@@ -41,11 +41,14 @@ def check(ctx):
     eps = [None, 1] if q else [None, 1, 2, [0], [0, 2]]
     cases = []
     for p, ep, d in itertools.product(pots, eps, dets):
-        for s in (["custom", "line", "grid"] if q else ["point", "custom", "line", "grid", "grid_ep"]):
+        for s in (["custom", "line", "grid", "grid_ep"] if q else ["point", "custom", "line", "grid", "grid_ep"]):
             for b in (["probe"] if q else ["probe", "probe_ab"]):
                 cases.append({"b": b, "p": p, "ep": ep, "d": d, "s": s})
         for b in (["pw"] if q else ["pw", "pw_norm", "pw_tilt"]):
             cases.append({"b": b, "p": p, "ep": ep, "d": d, "s": "none"})
+    if q:  # a single explicit exit plane that is not the last slice (the thorough tier has the full exit-plane alphabet)
+        for p, d in itertools.product(("fp2", "fp1", "atoms", "crystal_fp"), ("waves", "annular")):
+            cases.append({"b": "probe", "p": p, "ep": [0], "d": d, "s": "custom"})
     ctx.run(cases, "run_product", rule="A: builder x potential x exit planes x detector x scan, eager + lazy(max_batch 1, 2, auto); "
             "non-trivial = ensemble potential or scan with > 1 position (several blocks)", space="A product")
     # B: rechunk compositions
